@@ -203,21 +203,41 @@ class Fleet:
         from . import cbuild
 
         need_c = any(n["runtime"] == "c" for n in self.plan["nodes"])
+        need_py = any(n["runtime"] == "py" for n in self.plan["nodes"])
         rt = cbuild.build_runtime(self.work) if need_c else None
         for i, s in enumerate(self.versions):
             d = os.path.join(self.work, "v%d" % i)
             os.makedirs(d)
             src = os.path.join(d, "pkt.bitproto")
+            split = self.plan.get("split")
+            lib_text = None
+            if split:
+                main_text, lib_text = s.split_texts(split["lib"], "pktlibv%d" % i, "pktlibv%d.bitproto" % i, split.get("alias", "lib"))
+            else:
+                main_text = s.text()
             with open(src, "w") as f:
-                f.write(s.text())
+                f.write(main_text)
+            lib_src = os.path.join(d, "pktlibv%d.bitproto" % i)
+            if lib_text is not None:
+                with open(lib_src, "w") as f:
+                    f.write(lib_text)
+                self.stats["multi_file_versions"] = self.stats.get("multi_file_versions", 0) + 1
             # (generated files are taken from what render() returns: no assumption about names)
             with _Sys("compile v%d py" % i):
                 proto = parse(src)
                 outs = [os.path.join(d, os.path.basename(p)) for p in render(proto, "py", outdir=d)]
+                lib_proto = parse(lib_src) if lib_text is not None else None
+                if lib_proto is not None:
+                    render(lib_proto, "py", outdir=d)  # the generated main module imports it by name
             pys = [p for p in outs if p.endswith(".py")]
             if len(pys) != 1:
                 raise HarnessError("the Python renderer returned %r" % (outs,))
-            self.py[i] = PyCodec(pys[0], "v%d" % i)
+            if need_py:
+                sys.path.insert(0, d)
+                try:
+                    self.py[i] = PyCodec(pys[0], "v%d" % i)
+                finally:
+                    sys.path.remove(d)
             if need_c:
                 with _Sys("compile v%d c" % i):
                     outs = [os.path.join(d, os.path.basename(p)) for p in render(proto, "c", outdir=d)]
@@ -225,7 +245,11 @@ class Fleet:
                 hs = [p for p in outs if p.endswith(".h")]
                 if len(cs) != 1 or len(hs) != 1:
                     raise HarnessError("the C renderer returned %r" % (outs,))
-                so = cbuild.build_version(self.work, cs[0], hs[0], rt, "v%d" % i, self.roots[i])
+                extra_c = []
+                if lib_proto is not None:
+                    with _Sys("compile v%d c-lib" % i):
+                        extra_c = [os.path.join(d, os.path.basename(p)) for p in render(lib_proto, "c", outdir=d) if p.endswith(".c")]
+                so = cbuild.build_version(self.work, cs[0], hs[0], rt, "v%d" % i, self.roots[i], extra_c)
                 self.c[i] = cbuild.CCodec(so, self.roots[i])
 
     # ------------------------------------------------------------- codecs
